@@ -213,7 +213,8 @@ Definition pkg_writes_outside_init (tb : list func) : list facc :=
    them through a per-set structure is not visible to the translator; the stress harness compares full dumps of
    independent sets with fresh-process baselines for that). *)
 Definition handout_allow : list (string * loc) :=
-  [ ("FindNode", "handout:pkg.isRPCNode");              (* marker "path points into an rpc", holds one fixed error *)
+  [ ("findNode", "handout:pkg.isRPCNode");              (* marker "path points into an rpc", holds one fixed error; the body of
+                                                          FindNode since the repair of D81 (64dc302) *)
     ("parser.nextStatement", "handout:pkg.ignoreMe") ]. (* parser's error-recovery token, dropped by the caller *)
 
 (* The same obligation covers ADOPTED ARGUMENTS: "adopt:T.f" records that a function stores a slice or map
